@@ -528,4 +528,52 @@ theorem C20_merge_disjoint_id (keys : List SSet) (hne : ∀ k ∈ keys, k ≠ []
 
 example : mergeSets [["A"], ["B", "C"], ["D"]] = [["A"], ["B", "C"], ["D"]] := by decide
 
+/-! ### exact contents and order of every result bucket -/
+
+/-- the pairs that the re-assignment loop pours into the bucket `s`: those of the keys whose FIRST meeting bucket is `s`,
+in the order of the input dict -/
+def poured (sets : List SSet) (kps : List (SSet × List Nat)) (s : SSet) : List Nat :=
+  (kps.filter (fun k => reassignOne sets k.1 == some s)).flatMap (·.2)
+
+theorem reassign_exact (sets : List SSet) (kps acc r : List (SSet × List Nat)) (h : reassign sets acc kps = .ok r) :
+    r = acc.map (fun e => (e.1, e.2 ++ poured sets kps e.1)) := by
+  induction kps generalizing acc with
+  | nil =>
+    simp only [reassign] at h
+    cases h
+    simp [poured]
+  | cons e0 rest ih =>
+    obtain ⟨k, ps⟩ := e0
+    simp only [reassign] at h
+    cases hf : reassignOne sets k with
+    | none => rw [hf] at h; cases h
+    | some b =>
+      rw [hf] at h
+      have h' : reassign sets (pourInto b ps acc) rest = .ok r := h
+      rw [ih _ h']
+      simp only [pourInto, map_map]
+      apply map_congr_left
+      intro e _
+      simp only [Function.comp]
+      by_cases hb : (e.1 == b) = true
+      · have hbe : b = e.1 := by simpa using Eq.symm (by simpa using hb : e.1 = b)
+        simp only [if_true, poured, filter_cons, hf, hbe, beq_self_eq_true, flatMap_cons, append_assoc]
+      · have hne : e.1 ≠ b := by simpa using hb
+        have : (some b == some e.1) = false := by
+          simp only [beq_eq_false_iff_ne, ne_eq, Option.some.injEq]; exact fun h => hne h.symm
+        simp only [hb, poured, filter_cons, hf, this]
+        simp
+
+/-- **mergeScripts, exactly**: whenever it returns, the result is the list of merged sets, in their order, each with the
+pairs of the input keys whose first meeting bucket it is, concatenated in input order - the whole output (keys, pairs and
+both orders) is determined by the input, for every input. -/
+theorem C20_merge_exact (kps r : List (SSet × List Nat)) (h : mergeScripts kps = .ok r) :
+    r = (mergeSets (kps.map (·.1))).map (fun s => (s, poured (mergeSets (kps.map (·.1))) kps s)) := by
+  unfold mergeScripts at h
+  rw [reassign_exact _ _ _ _ h]
+  simp [map_map, Function.comp_def]
+
+example : (mergeScripts [(["A", "B"], [0]), (["C"], [1, 5]), (["B", "D"], [2])]).toOption
+    = some [(["A", "B", "D"], [0, 2]), (["C"], [1, 5])] := by decide
+
 end Ufo2ft.C20
